@@ -392,9 +392,10 @@ pub fn c09(h: &Hist, s: u8, v: &mut Verdicts) {
         if uns.len() != shared_n {
             v.fail("C09", format!("store {}: subscriber {} ({}) received on_unsubscribe {} times (unsubscribe() calls: {}, store stopped: yes)", s, si.id, kind_name(si), uns.len(), t.uinv.len()));
         } else {
-            let deadline = t.uret.first().copied().unwrap_or(INF).min(sr.ret);
+            let settled = settled_stop_ret(h, s);
+            let deadline = t.uret.first().copied().unwrap_or(INF).min(settled);
             if uns[0].seq > deadline {
-                v.fail("C09", format!("store {}: subscriber {} ({}) received on_unsubscribe at seq {} only after {} had returned at seq {}", s, si.id, kind_name(si), uns[0].seq, if deadline == sr.ret { "stop()" } else { "unsubscribe()" }, deadline));
+                v.fail("C09", format!("store {}: subscriber {} ({}) received on_unsubscribe at seq {} only after {} had returned at seq {}", s, si.id, kind_name(si), uns[0].seq, if deadline == settled { "stop()" } else { "unsubscribe()" }, deadline));
             }
         }
     }
